@@ -128,6 +128,15 @@ def check(R):
             R.expect('P5', PR + '::' + acc, f'the encoder-side accessor tests the {flag} flag', cs == {flag}, f'contains({flag})', f'tests {sorted(cs)}')
         SR = 'sc::StatusReport'
         codec_agreement(R, SR + '::write', SR + '::read', SR, 3)
+        # base-38: "every character string offered to each decoder" - the decoder has to be ABLE to refuse: its items are Results, and an
+        # adaptor that keeps items only while they are Ok (take_while(Result::is_ok)) also swallows the first Err - a malformed chunk then
+        # simply vanishes and "MT:!!!!!<valid code>" decodes to the fields of the valid code
+        for fn_ in ('utils::codec::base38::decode', 'utils::codec::base38::decode_base38'):
+            bs_ = [R.body(fn_)] + list(F.nested(fn_))
+            eat = [b_.where(t.bb) for b_ in bs_ for t in b_.calls() if any(n.endswith(('Iterator::take_while', 'Iterator::filter', 'Iterator::map_while', 'Iterator::flatten', 'Iterator::filter_map')) for n in t.callee_names())
+                   and any(x[0] == 'fn' and x[1].endswith(('Result::is_ok', 'Result::ok')) for a in t.d['a'] for x in prims.sources(b_, a))]
+            R.expect('P8', fn_, 'the base-38 decoder yields its errors (no adaptor that drops the Err items)', not eat, 'errors reach the caller',
+                     f'{eat}: the Err item is dropped together with everything after it - invalid characters, a bad chunk length or an over-range chunk silently shorten the output instead of failing')
         # bulk transfer: the range-control byte selects which optional fields follow and how wide they are.  Writer and parser must look at
         # the same flags, and the parser must take every flag it branches on from the RECEIVED byte (a flag re-built from a default makes
         # the parser read a 4-octet length where the writer put 8)
